@@ -29,6 +29,20 @@ VERIF = os.path.dirname(os.path.dirname(os.path.abspath(__file__)))
 REPO = os.environ.get("VERIF_REPO", "/repo")
 COQ = os.path.join(VERIF, "coq")
 BUILD = os.path.join(VERIF, "build")
+EVIDENCE_DIR = os.path.join(VERIF, "evidence")
+ALT = None
+if os.path.realpath(REPO) != "/repo":
+    # a run against a scratch copy of the repository (used when trying code changes) gets its own
+    # copy of the Coq tree and build directory, so that it cannot disturb checks of /repo itself
+    import atexit
+    import shutil
+    ALT = os.path.join(BUILD, "alt", os.path.realpath(REPO).replace("/", "_") + "_%d" % os.getpid())
+    os.makedirs(ALT, exist_ok=True)
+    subprocess.run(["rsync", "-a", "--delete", COQ + "/", os.path.join(ALT, "coq") + "/"], check=True)
+    COQ = os.path.join(ALT, "coq")
+    BUILD = os.path.join(ALT, "build")
+    EVIDENCE_DIR = os.path.join(ALT, "evidence")
+    atexit.register(lambda: shutil.rmtree(ALT, ignore_errors=True))
 sys.path.insert(0, os.path.join(REPO, "src"))
 sys.path.insert(1, os.path.join(VERIF, "tools"))
 os.environ.setdefault("PYTHONHASHSEED", "0")
@@ -419,7 +433,7 @@ def main():
     os.makedirs(BUILD, exist_ok=True)
     H = importlib.import_module("harness." + pid.lower())
     known = load_known(pid)
-    ev_path = os.path.join(VERIF, "evidence", pid + ".json")
+    ev_path = os.path.join(EVIDENCE_DIR, pid + ".json")
     os.makedirs(os.path.dirname(ev_path), exist_ok=True)
     trouble = []  # machinery trouble
     broken = []  # proof obligations / anchors / correspondence cases that no longer check
